@@ -261,18 +261,30 @@ structure OrcOut where
   oob : List String
   tainted : List String
 
+/-- How a shadow list differs from the server's content after an out-of-band loss:
+`duplicates` (a URI listed twice – F-C19-1, fixed by 7b4aa6c7), `stale-entry` (everything the server
+holds is listed once with the right content, and there are additional entries for URIs the server
+does not hold – F-C19-3), `other`. -/
+def lossClass (p m : List File) : String :=
+  if !(noDupUris p) then "duplicates"
+  else if m.all (fun f => entries p f.1 == [f.2]) &&
+          p.all (fun f => (entries m f.1 == [f.2]) || (entries m f.1).isEmpty) then "stale-entry"
+  else "other"
+
 /-- Shadow list = server content for every publisher that has not been touched out of band; for a
 publisher that was, at its first successful synchronisation afterwards. -/
 def oraclePublished (st : St) (raw : AList CaStatus) (obs : Json) (syncedNow : List String) : OrcOut :=
   let pubs := jkeys (jget obs "server")
   pubs.foldl (fun acc ca =>
-    let ok := inSyncB (viewOf raw ca).repo.published ((serverOf obs ca).getD [])
+    let shadow := (viewOf raw ca).repo.published
+    let srv := (serverOf obs ca).getD []
+    let ok := inSyncB shadow srv
     if acc.tainted.contains ca then acc
     else if acc.oob.contains ca then
       if syncedNow.contains ca then
         if ok then { acc with oob := acc.oob.filter (· != ca) }
         else { acc with oob := acc.oob.filter (· != ca), tainted := ca :: acc.tainted,
-                        fails := acc.fails ++ ["published_list_is_server_content:lost-content"] }
+                        fails := acc.fails ++ [s!"published_list_is_server_content:lost-content-{lossClass shadow srv}"] }
       else acc
     else if ok then acc
     else { acc with tainted := ca :: acc.tainted,
@@ -417,9 +429,12 @@ def directCandidates (st : St) (op : List String) (ret : String) (raw : AList Ca
         else [([.parentList ca p uri true (.ok ((truthEnt obs ca p).getD [])) t], "list-ok")]
       else
         if isErr then
+          if nRev == 0 then
+            -- nothing to revoke: no revocation phase, only the refused certificate request is recorded
+            [(syncParentEvents ca p uri true 0 (.ok ()) (.error lbl) (.ok []) t, "request-refused-nothing-to-revoke")]
+          else
           [(syncParentEvents ca p uri true nRev (.error lbl) (.ok ()) (.ok []) t, "revoke-refused"),
-           ([.parentRevokes ca p uri nRev (.ok ()) ls, .parentCerts ca p uri (.error lbl) t],
-            if nRev == 0 then "request-refused-after-vacuous-success" else "request-refused")]
+           ([.parentRevokes ca p uri nRev (.ok ()) ls, .parentCerts ca p uri (.error lbl) t], "request-refused")]
         else [(syncParentEvents ca p uri true nRev (.ok ()) (.ok ()) (.ok []) t, "requests-ok")]
     let known := (truthChild st.prev p ca).isSome
     let oc := obsChild raw p ca
